@@ -6,7 +6,8 @@ Part 1 mirrors the element-based chunker of `rag/document_integration.go`
 (`DocumentChunker.ChunkDocument / chunkPage / textBlockToChunks / create*Chunk /
 pushSection`) as the code is after the C12 fixes (every chunk owns a copy of the section
 path; open sections are closed by heading *level*; `resolveRepeatedHeadings` gives a
-heading-like paragraph that repeats a heading text of its page the level of its own entry).
+heading-like paragraph that repeats a heading text of its page the level of its own entry)
+and after the C15 fix efed37d (`createListChunk` trims the end of the list text only).
 
 Part 2 mirrors the layout-based chunker of `rag/chunker.go`
 (`Chunker.buildSections / Chunk / chunkSectionTree / chunkSection /
@@ -28,6 +29,10 @@ def strip (s : Str) : Str := s.filter fun c => !isSpace c
 
 /-- `strings.TrimSpace`. -/
 def trim (s : Str) : Str := ((s.dropWhile isSpace).reverse.dropWhile isSpace).reverse
+
+/-- `strings.TrimRightFunc(s, unicode.IsSpace)`: trailing white space only
+(`trim s = trimRight (s.dropWhile isSpace)` by definition). -/
+def trimRight (s : Str) : Str := (s.reverse.dropWhile isSpace).reverse
 
 def ofString (s : String) : Str := s.toList.map Char.toNat
 
@@ -151,7 +156,16 @@ def fmtListItems (ordered : Bool) : List (Int × Str) → List (Int × Nat) → 
     else
       indent lvl ++ [45, 32] ++ txt ++ [10] ++ fmtListItems ordered rest ctrs lvl
 
+/-- the text of the list chunk (`createListChunk` after efed37d): the item lines with the
+trailing white space removed — `strings.TrimRightFunc(sb.String(), unicode.IsSpace)`; the
+indentation of a nested first item stays. -/
 def listText (ordered : Bool) (items : List (Int × Str)) : Str :=
+  trimRight (fmtListItems ordered items [] (-1))
+
+/-- the text of the list chunk as the pinned code wrote it (`strings.TrimSpace(sb.String())`):
+a nested first item lost its indentation. Kept for `list_text_pinned_counterexample`; no model
+function uses it. -/
+def listTextOld (ordered : Bool) (items : List (Int × Str)) : Str :=
   trim (fmtListItems ordered items [] (-1))
 
 /-- `escapeMarkdownCell`: a newline becomes a blank, a pipe is escaped as `\|` -/
